@@ -133,6 +133,11 @@ func (m *machine) Next(t *rapid.T) hOp {
 	if (openHTLT > 0 && m.n.reimports == 0 && chance(t, "reimport/first", 7)) || chance(t, "reimport/any", 2) {
 		return m.genReimport()
 	}
+	if m.c03() && m.n.bursts == 0 && uni(t, "burst", 120) == 0 {
+		// more than a hundred contracts in one expiry bucket (anything that pages through a bucket sees a second page)
+		return hOp{Kind: "burst", Sender: uni(t, "burst/sender", 4), To: uni(t, "burst/to", 4), N: 101 + uni(t, "burst/n", 20),
+			TimeLock: uint64(minTimeLock + uni(t, "burst/lock", 4)), Coins: []coinJ{{"stake", "1"}}}
+	}
 	var w [6]int // plain, htlt, dup, claim, block, params
 	if m.c03() {
 		w = [6]int{19, 17, 5, 29, 25, 5}
